@@ -12,11 +12,90 @@ against parse_path on every grammatical program, under several spellings."""
 import itertools, json, warnings
 from fractions import Fraction as Fr
 import common
-from common import qc, coq_list, coq_bool
+from common import coq_list, coq_bool
 
 LETTERS = 'MmZzLlHhVvCcSsQqTtAa'
 NARGS = {'M': 2, 'L': 2, 'H': 1, 'V': 1, 'C': 6, 'S': 4, 'Q': 4, 'T': 2, 'A': 7, 'Z': 0}
 ERR = {'IndexError': 1, 'ValueError': 2, 'TypeError': 3, 'AttributeError': 4, 'AssertionError': 5}
+
+# ------------------------------------------------------------ Coq encoding
+# Everything a case needs is handed to Coq as lists of primitive 63-bit integer
+# literals (one kernel node each; nested constructor terms and string literals
+# elaborate ~10x slower) and decoded there by the reader of OKDEF:
+#   number  : w <> 0  -> (w - 2^61) / 2^K  (K = first word of the stream)
+#             0, m, k -> (m - 2^61) / 2^k  (numbers that do not fit)
+#   program : ncmds, then per command  letter code (index in LETTERS), ngroups, numbers
+#   tokens  : ntoks, then per token  1 code | 2 number
+#   outcome : 0 nsegs segs | 1 errcode ;  seg = 0 Line | 1 Quad | 2 Cubic | 3 Arc, then its numbers
+B61 = 2 ** 61
+
+
+def dy_exp(x):
+    d = Fr(x).denominator
+    assert d & (d - 1) == 0, x
+    return d.bit_length() - 1
+
+
+class Enc:
+    def __init__(self, numbers):
+        ks = [dy_exp(x) for x in numbers]
+        self.K = max([k for k in ks if k <= 16] or [0])
+        self.w = [self.K]
+
+    def int(self, n):
+        self.w.append(int(n))
+
+    def num(self, x):
+        fr = Fr(x)
+        k = dy_exp(fr)
+        n = fr * 2 ** self.K
+        if k <= self.K and abs(n) < 2 ** 60:
+            self.w.append(int(n) + B61)
+        else:
+            n = int(fr * 2 ** k)
+            assert abs(n) < 2 ** 60 and k < 2 ** 20, x
+            self.w += [0, n + B61, k]
+
+    def term(self):
+        return words(self.w)
+
+
+def words(ws):
+    return coq_list([hex(w) for w in ws]) + '%uint63'
+
+
+def coq_str(s):
+    """the bytes of s, 6 to a word, each word = 1 then the bytes in base 256"""
+    b = s.encode('ascii')
+    return words([int.from_bytes(b'\x01' + b[i:i + 6], 'big') for i in range(0, len(b), 6)])
+
+
+def prog_numbers(prog):
+    return [v for _, gs in prog for g in gs for v in g]
+
+
+def enc_prog(e, prog):
+    e.int(1)
+    e.int(len(prog))
+    for let, groups in prog:
+        e.int(LETTERS.index(let))
+        e.int(len(groups))
+        for g in groups:
+            for v in g:
+                e.num(v)
+
+
+def enc_toks(e, toks):
+    e.int(2)
+    e.int(len(toks))
+    for t in toks:
+        if isinstance(t, str):
+            e.int(1)
+            e.int(LETTERS.index(t))
+        else:
+            e.int(2)
+            e.num(t)
+
 
 # ---------------------------------------------------------------- programs
 # a program is a list of (letter, groups); a group is a tuple of Fractions
@@ -43,35 +122,6 @@ def track(prog, pos0=(Fr(0), Fr(0))):
             if U == 'M' and i == 0:
                 start = cur
     return cur, start
-
-
-def c_pt(x, y):
-    return '(%s, %s)' % (qc(x), qc(y))
-
-
-def coq_cmd(let, groups):
-    U, ab = let.upper(), coq_bool(let.isupper())
-    if U == 'Z':
-        return 'Close %s' % ab
-    if U in 'MLT':
-        return '%s %s %s' % ({'M': 'MoveTo', 'L': 'LineTo', 'T': 'TTo'}[U], ab,
-                             coq_list([c_pt(*g) for g in groups]))
-    if U in 'HV':
-        return '%s %s %s' % ({'H': 'HTo', 'V': 'VTo'}[U], ab, coq_list([qc(g[0]) for g in groups]))
-    if U == 'C':
-        return 'CurveTo %s %s' % (ab, coq_list(['(%s, %s, %s)' % (c_pt(g[0], g[1]), c_pt(g[2], g[3]), c_pt(g[4], g[5]))
-                                                for g in groups]))
-    if U in 'SQ':
-        return '%s %s %s' % ({'S': 'SmoothTo', 'Q': 'QuadTo'}[U], ab,
-                             coq_list(['(%s, %s)' % (c_pt(g[0], g[1]), c_pt(g[2], g[3])) for g in groups]))
-    if U == 'A':
-        return 'ArcTo %s %s' % (ab, coq_list(['(mkArcArgs %s %s %s %s %s)' % (
-            c_pt(g[0], g[1]), qc(g[2]), coq_bool(g[3] != 0), coq_bool(g[4] != 0), c_pt(g[5], g[6])) for g in groups]))
-    raise ValueError(let)
-
-
-def coq_prog(prog):
-    return coq_list([coq_cmd(l, g) for l, g in prog])
 
 
 def split_prog(prog, rng, p_repeat):
@@ -333,15 +383,9 @@ def prog_of_canonical(d):
 
 
 # -------------------------------------------------------- implementation
-def pt_term(z):
-    if z is None:
-        return None
-    z = complex(z)
-    return '(%s, %s)' % (qc(z.real), qc(z.imag))
-
-
 def observe(d, pos0=0j):
-    """parse_path(d) as a Coq outcome term + a python-comparable key + token list"""
+    """parse_path(d): (outcome as (status, payload), python-comparable key, token list)
+    payload: list of (kind, numbers) or the error code"""
     from svgpathtools import parse_path, Line, QuadraticBezier, CubicBezier, Arc, Path
     toks = list(Path()._tokenize_path(d))
     try:
@@ -351,42 +395,146 @@ def observe(d, pos0=0j):
         segs = list(p)
     except Exception as e:
         name = type(e).__name__
-        return 'IErr %d' % ERR.get(name, 9), ('err', name), toks
-    terms, key = [], []
+        return (1, ERR.get(name, 9)), ('err', name), toks
+    out, key = [], []
+
+    def xy(z):
+        z = complex(z)
+        return [Fr(z.real), Fr(z.imag)]
     for s in segs:
         if isinstance(s, Line):
             pts = [s.start, s.end]
             if any(z is None for z in pts):
-                return 'IErr 6', ('err', 'NonePoint'), toks
-            terms.append('Line %s %s' % tuple(pt_term(z) for z in pts))
+                return (1, 6), ('err', 'NonePoint'), toks
+            out.append((0, sum((xy(z) for z in pts), [])))
         elif isinstance(s, QuadraticBezier):
             pts = [s.start, s.control, s.end]
-            terms.append('Quad %s %s %s' % tuple(pt_term(z) for z in pts))
+            out.append((1, sum((xy(z) for z in pts), [])))
         elif isinstance(s, CubicBezier):
             pts = [s.start, s.control1, s.control2, s.end]
-            terms.append('Cubic %s %s %s %s' % tuple(pt_term(z) for z in pts))
+            out.append((2, sum((xy(z) for z in pts), [])))
         elif isinstance(s, Arc):
             pts = [s.start, s.radius, s.rotation, s.large_arc, s.sweep, s.end]
-            terms.append('Arc %s %s %s %s %s %s' % (pt_term(s.start), pt_term(s.radius), qc(s.rotation),
-                                                     coq_bool(s.large_arc), coq_bool(s.sweep), pt_term(s.end)))
+            out.append((3, xy(s.start) + xy(s.radius) + [Fr(s.rotation), Fr(int(bool(s.large_arc))),
+                                                         Fr(int(bool(s.sweep)))] + xy(s.end)))
         else:
-            return 'IErr 9', ('err', 'UnknownSegment'), toks
+            return (1, 9), ('err', 'UnknownSegment'), toks
         key.append((type(s).__name__,) + tuple(pts))
-    return 'IOk %s' % coq_list(terms), ('ok', tuple(key)), toks
-
-
-def coq_str(s):
-    """the bytes of s as one Z literal, base 256 behind a leading 1 (long Coq
-    string literals are slow to elaborate); decoded by [unpack] below"""
-    b = s.encode('ascii')
-    return '%d%%Z' % int.from_bytes(b'\x01' + b, 'big')
+    return (0, out), ('ok', tuple(key)), toks
 
 
 OKDEF = r'''
-From Coq Require Import Ascii String.
+From Coq Require Import Ascii String Uint63.
 From SVP Require Import Model.Parse Model.Lexer.
 Definition N := NumQ.
 Inductive outcome := IOk (l : list (seg Qc)) | IErr (code : nat).
+
+(* ---- reader of the integer streams written by the harness ---- *)
+Definition rd (A : Type) : Type := list int -> option (A * list int).
+Definition rret {A} (a : A) : rd A := fun s => Some (a, s).
+Definition rfail {A} : rd A := fun _ => None.
+Definition rbind {A B} (x : rd A) (f : A -> rd B) : rd B :=
+  fun s => match x s with Some (a, r) => f a r | None => None end.
+Definition rd_int : rd Z := fun s => match s with w :: r => Some (Uint63.to_Z w, r) | [] => None end.
+Definition rd_nat : rd nat := rbind rd_int (fun z => rret (Z.to_nat z)).
+Definition dyz (n k : Z) : Qc := Q2Qc (Qmake n (Z.to_pos (2 ^ k))).
+Definition B61 : Z := (2 ^ 61)%Z.
+Definition rd_num (K : Z) : rd Qc := fun s =>
+  match s with
+  | w :: r => if Uint63.eqb w 0
+              then match r with
+                   | m :: k :: r' => Some (dyz (Uint63.to_Z m - B61) (Uint63.to_Z k), r')
+                   | _ => None end
+              else Some (dyz (Uint63.to_Z w - B61) K, r)
+  | [] => None
+  end.
+Fixpoint rd_rep {A} (x : rd A) (n : nat) : rd (list A) :=
+  match n with
+  | O => rret []
+  | S m => rbind x (fun a => rbind (rd_rep x m) (fun l => rret (a :: l)))
+  end.
+Definition rd_pt (K : Z) : rd (Cplx Qc) :=
+  rbind (rd_num K) (fun x => rbind (rd_num K) (fun y => rret (x, y))).
+Definition rd_flag (K : Z) : rd bool :=
+  rbind (rd_num K) (fun v => rret (negb (Qc_eq_bool v (Q2Qc 0)))).
+Definition rd_pair (K : Z) : rd (Cplx Qc * Cplx Qc) :=
+  rbind (rd_pt K) (fun a => rbind (rd_pt K) (fun b => rret (a, b))).
+Definition rd_triple (K : Z) : rd (Cplx Qc * Cplx Qc * Cplx Qc) :=
+  rbind (rd_pt K) (fun a => rbind (rd_pt K) (fun b => rbind (rd_pt K) (fun c => rret (a, b, c)))).
+Definition rd_arcargs (K : Z) : rd (arcargs Qc) :=
+  rbind (rd_pt K) (fun r => rbind (rd_num K) (fun rot => rbind (rd_flag K) (fun la =>
+  rbind (rd_flag K) (fun sw => rbind (rd_pt K) (fun e => rret (mkArcArgs r rot la sw e)))))).
+(* letter codes: index in 'MmZzLlHhVvCcSsQqTtAa' *)
+Definition letter_of (code : Z) : option cmdletter :=
+  match (code / 2)%Z with
+  | 0 => Some cM | 1 => Some cZ | 2 => Some cL | 3 => Some cH | 4 => Some cV
+  | 5 => Some cC | 6 => Some cS | 7 => Some cQ | 8 => Some cT | 9 => Some cA
+  | _ => None end%Z.
+Definition rd_cmd (K : Z) : rd (command Qc) :=
+  rbind rd_int (fun code => rbind rd_nat (fun n =>
+    let up := Z.even code in
+    match letter_of code with
+    | Some cM => rbind (rd_rep (rd_pt K) n) (fun l => rret (MoveTo up l))
+    | Some cZ => rret (Close up)
+    | Some cL => rbind (rd_rep (rd_pt K) n) (fun l => rret (LineTo up l))
+    | Some cH => rbind (rd_rep (rd_num K) n) (fun l => rret (HTo up l))
+    | Some cV => rbind (rd_rep (rd_num K) n) (fun l => rret (VTo up l))
+    | Some cC => rbind (rd_rep (rd_triple K) n) (fun l => rret (CurveTo up l))
+    | Some cS => rbind (rd_rep (rd_pair K) n) (fun l => rret (SmoothTo up l))
+    | Some cQ => rbind (rd_rep (rd_pair K) n) (fun l => rret (QuadTo up l))
+    | Some cT => rbind (rd_rep (rd_pt K) n) (fun l => rret (TTo up l))
+    | Some cA => rbind (rd_rep (rd_arcargs K) n) (fun l => rret (ArcTo up l))
+    | None => rfail
+    end)).
+Definition rd_tok (K : Z) : rd (tok Qc) :=
+  rbind rd_int (fun tag =>
+    match tag with
+    | 1%Z => rbind rd_int (fun code => match letter_of code with
+                                      | Some c => rret (TCmd c (Z.even code))
+                                      | None => rfail end)
+    | 2%Z => rbind (rd_num K) (fun v => rret (TNum v))
+    | _ => rfail
+    end).
+Definition rd_expected (K : Z) : rd (list (command Qc) + list (tok Qc)) :=
+  rbind rd_int (fun kind =>
+    match kind with
+    | 1%Z => rbind rd_nat (fun n => rbind (rd_rep (rd_cmd K) n) (fun p => rret (inl p)))
+    | 2%Z => rbind rd_nat (fun n => rbind (rd_rep (rd_tok K) n) (fun t => rret (inr t)))
+    | _ => rfail
+    end).
+Definition rd_seg (K : Z) : rd (seg Qc) :=
+  rbind rd_int (fun kind =>
+    match kind with
+    | 0%Z => rbind (rd_pt K) (fun s => rbind (rd_pt K) (fun e => rret (Line s e)))
+    | 1%Z => rbind (rd_pt K) (fun s => rbind (rd_pt K) (fun c => rbind (rd_pt K) (fun e => rret (Quad s c e))))
+    | 2%Z => rbind (rd_pt K) (fun s => rbind (rd_pt K) (fun c1 => rbind (rd_pt K) (fun c2 =>
+             rbind (rd_pt K) (fun e => rret (Cubic s c1 c2 e)))))
+    | 3%Z => rbind (rd_pt K) (fun s => rbind (rd_pt K) (fun r => rbind (rd_num K) (fun rot =>
+             rbind (rd_flag K) (fun la => rbind (rd_flag K) (fun sw => rbind (rd_pt K) (fun e =>
+               rret (Arc s r rot la sw e)))))))
+    | _ => rfail
+    end).
+Definition rd_outcome (K : Z) : rd outcome :=
+  rbind rd_int (fun st =>
+    match st with
+    | 0%Z => rbind rd_nat (fun n => rbind (rd_rep (rd_seg K) n) (fun l => rret (IOk l)))
+    | 1%Z => rbind rd_nat (fun c => rret (IErr c))
+    | _ => rfail
+    end).
+Definition rd_case : rd ((list (command Qc) + list (tok Qc)) * Cplx Qc * outcome) :=
+  rbind rd_int (fun K => rbind (rd_pt K) (fun pos0 => rbind (rd_expected K) (fun ex =>
+  rbind (rd_outcome K) (fun o => rret (ex, pos0, o))))).
+(* strings: words of 1 then up to 6 bytes, base 256 *)
+Fixpoint unpack_fuel (fuel : nat) (z : Z) (acc : list ascii) : list ascii :=
+  match fuel with
+  | O => acc
+  | S f => if (z <=? 1)%Z then acc
+           else unpack_fuel f (Z.shiftr z 8) (ascii_of_N (Z.to_N (Z.land z 255)) :: acc)
+  end.
+Definition unpack (ws : list int) : list ascii :=
+  flat_map (fun w => unpack_fuel 8 (Uint63.to_Z w) []) ws.
+
+(* ---- comparison of the implementation's observations with the models ---- *)
 (* radii: equal to |given|, or enlarged by a common factor (Arc._parameterize
    scales radii that are too small; C04's business) *)
 Definition radius_ok (m i : Cplx Qc) : bool :=
@@ -403,7 +551,8 @@ Definition err_match (e : perr) (c : nat) : bool :=
   match e with
   | IndexError => Nat.eqb c 1 | ValueError => Nat.eqb c 2 | TypeError => Nat.eqb c 3
   | AttributeError => Nat.eqb c 4 | AssertionError => Nat.eqb c 5
-  | StartNone => Nat.eqb c 6 || Nat.eqb c 4 || Nat.eqb c 3   (* Line(_, None), then attribute/type errors on None *)
+  | StartNone => true   (* closepath before any moveto: Python goes on with current_pos = None (a Line
+                           ending in None, or whatever exception comes later); outside the model *)
   | OutOfFuel => false
   end.
 Definition res_match (r : result (list (seg Qc))) (o : outcome) : bool :=
@@ -417,29 +566,23 @@ Fixpoint join (l : list ltok) : list ascii :=
   | [] => []
   | t :: r => (match t with LCmd a => [a] | LNum x => x end) ++ "|"%char :: join r
   end.
-(* strings arrive as one integer: 1, then the bytes, base 256 *)
-Fixpoint unpack_fuel (fuel : nat) (z : Z) (acc : list ascii) : list ascii :=
-  match fuel with
-  | O => acc
-  | S f => if (z <=? 1)%Z then acc
-           else unpack_fuel f (Z.shiftr z 8) (ascii_of_N (Z.to_N (Z.land z 255)) :: acc)
-  end.
-Definition unpack (z : Z) : list ascii := unpack_fuel (Z.to_nat (Z.log2 z)) z [].
 Fixpoint ascii_list_eqb (a b : list ascii) : bool :=
   match a, b with
   | [], [] => true
   | x :: a', y :: b' => Ascii.eqb x y && ascii_list_eqb a' b'
   | _, _ => false
   end.
-Definition casety : Type :=
-  (Z * Z * (list (command Qc) + list (tok Qc)) * Cplx Qc * outcome)%type.
+Definition casety : Type := (list int * list int * list int)%type.
 Definition bit (b : bool) (v : nat) : nat := if b then 0 else v.
 (* 1: tokenizer model <> _tokenize_path      2: the string does not lex to the intended tokens
    4/8/16/32: impl_parse variant (none_ok,coinc_ok) = ff/tf/ft/tt disagrees with parse_path
    64: the reference interpreter disagrees with parse_path (the property)
-   128/256/512 (informative): S/T directly after Z; arc ending on the current point; not grammatical *)
+   128/256/512 (informative): S/T directly after Z; arc ending on the current point; not grammatical
+   1024: the case could not be decoded (harness defect) *)
 Definition ok (c : casety) : nat :=
-  let '(d, joined, ex, pos0, o) := c in
+  let '(d, joined, body) := c in
+  match rd_case body with
+  | Some ((ex, pos0, o), []) =>
   let lt := tokenize (unpack d) in
   let toks := flat_map tok_of_ltok lt in
   let expected := match ex with inl prog => flatten N prog | inr t => t end in
@@ -459,17 +602,13 @@ Definition ok (c : casety) : nat :=
                 | inl prog => bit (no_smooth_after_close prog) 128 + bit (no_coincident_arc N pos0 prog) 256
                               + bit (grammatical prog) 512
                 | inr _ => 0 end
+  end
+  | _ => 1024
   end.
 '''
 
 VARIANTS = {4: ('none_ok=false', 'coinc_ok=false'), 8: ('none_ok=true', 'coinc_ok=false'),
             16: ('none_ok=false', 'coinc_ok=true'), 32: ('none_ok=true', 'coinc_ok=true')}
-
-
-def coq_tok(t):
-    if isinstance(t, str):
-        return 'TCmd c%s %s' % (t.upper(), coq_bool(t.isupper()))
-    return 'TNum %s' % qc(t)
 
 
 class Case:
@@ -481,9 +620,28 @@ class Case:
 
     def term(self):
         self.obs, self.key, self.pytoks = observe(self.d, self.pos0)
-        ex = 'inl %s' % coq_prog(self.prog) if self.prog is not None else 'inr %s' % coq_list([coq_tok(t) for t in self.toks])
-        return '(%s, %s, %s, %s, %s)' % (coq_str(self.d), coq_str(''.join(t + '|' for t in self.pytoks)), ex,
-                                         pt_term(self.pos0), self.obs)
+        st, payload = self.obs
+        nums = [Fr(self.pos0.real), Fr(self.pos0.imag)]
+        nums += prog_numbers(self.prog) if self.prog is not None else [t for t in self.toks if not isinstance(t, str)]
+        if st == 0:
+            nums += [v for _, vs in payload for v in vs if dy_exp(v) <= 16]
+        e = Enc(nums)
+        e.num(Fr(self.pos0.real))
+        e.num(Fr(self.pos0.imag))
+        if self.prog is not None:
+            enc_prog(e, self.prog)
+        else:
+            enc_toks(e, self.toks)
+        e.int(st)
+        if st == 0:
+            e.int(len(payload))
+            for kind, vs in payload:
+                e.int(kind)
+                for v in vs:
+                    e.num(v)
+        else:
+            e.int(payload)
+        return '(%s, %s, %s)' % (coq_str(self.d), coq_str(''.join(t + '|' for t in self.pytoks)), e.term())
 
 
 def prog_json(prog):
@@ -538,7 +696,7 @@ def build_cases(rng, tier, rep):
         add(Case(d, prog=prog_of_canonical(d), stream='corpus'))
     # exhaustive: 'M' + up to 3 (4) further commands over the 20 letters
     maxlen = 3 if tier == 'quick' else 4
-    nvar = 2 if tier == 'quick' else 1
+    nvar = 1
     for letters in exhaustive_programs(maxlen):
         prog = prog_pow2(letters)
         d, _ = render(prog, rng, 'canon')
@@ -551,7 +709,7 @@ def build_cases(rng, tier, rep):
             d2, _ = render(p2, rng, style)
             add(Case(d2, prog=p2, stream='exhaustive-respelled'))
     # random programs of length 5..40
-    nrand = 1200 if tier == 'quick' else 12000
+    nrand = 800 if tier == 'quick' else 10000
     for i in range(nrand):
         n = rng.randint(5, 40)
         letters = ['M' if rng.random() < 0.8 else 'm'] + [rng.choice(LETTERS) for _ in range(n - 1)]
@@ -612,7 +770,7 @@ def run(rep, tier, seed, replay=None):
         else:
             cases, dist = build_cases(rng, tier, rep)
         terms = [c.term() for c in cases]
-        fails, errors = common.run_cases(tmp, '', 'casety', OKDEF, terms, shard=150 if tier == 'quick' else 400,
+        fails, errors = common.run_cases(tmp, '', 'casety', OKDEF, terms, shard=300,
                                          timeout=1500)
         for e in errors:
             rep.violation('correspondence case file failed to evaluate', {'kind': 'cases', 'error': e},
